@@ -95,6 +95,8 @@ round2('C18-m3', 'C18', 'm1', [('equal_wide_mantissa_test.go', 'json'), ('enum_w
 round2('C18-m4', 'C18', 'm2', [('enum_respelled_test.go', 'jsonschema')], GT + "-run TestEnumRespelled ./jsonschema/")
 round2('C07-m3', 'C07', 'm1', [('c07_m1_expand_roundtrip_test.go', 'openapi/parser')], GT + "-run TestC07M1 ./openapi/parser/")
 round2('C07-m4', 'C07', 'm2', [('c07_m2_inline_default_test.go', '.')], GT + "-run TestC07M2 .")
+round2('C02-m3', 'C02', 'm1', [('mutdemo_test.go', 'gen')], GT + "-run TestMutDemoParamNames ./gen/")
+round2('C02-m4', 'C02', 'm2', [('mutdemo_test.go', 'gen')], GT + "-run TestMutDemoFeatureMatrix ./gen/")
 # round2-entries
 TABLE.update(json.load(open('/verif/tools/seeded_extra.json')) if os.path.exists('/verif/tools/seeded_extra.json') else {})
 
